@@ -1,4 +1,52 @@
-import SfxModel.ConvSpec
+import SfxProofs.Convert
+/-
+  C04 — Fixed<->fixed and fixed<->integer conversions are exact with precise overflow.
+  `Layout.convExact S D x = ⌊x · 2^D.f / 2^S.f⌋`: the source value on the destination grid, excess fractional bits discarded
+  toward −∞.  Primitive integers are the zero-fraction layouts `Layout.ofInt signed width` (as in the code: `to_repr_fixed`).
+-/
 namespace Sfx.C04
-theorem placeholder : True := trivial
+open Sfx.ConvPf
+
+def C04_statement : Prop :=
+  ∀ S D : Layout, S.valid → D.valid → ∀ x : Int, inRange S x →
+    Layout.overflowingFromFixed S D x = D.ovf (Layout.convExact S D x) ∧
+    Layout.checkedFromFixed S D x = D.chk (Layout.convExact S D x) ∧
+    Layout.wrappingFromFixed S D x = D.wrap (Layout.convExact S D x) ∧
+    Layout.saturatingFromFixed S D x = D.clamp (Layout.convExact S D x) ∧
+    Layout.fromFixed S D x = .ok (D.wrap (Layout.convExact S D x)) (!decide (inRange D (Layout.convExact S D x))) ∧
+    -- `From`: admitted only where it cannot overflow, and then value-preserving
+    (fromAdmissible S D →
+      Layout.fromLossless S D x = .ok (x * 2 ^ (D.f - S.f)) false ∧ inRange D (x * 2 ^ (D.f - S.f)) ∧
+      (x * 2 ^ (D.f - S.f)) * 2 ^ S.f = x * 2 ^ D.f) ∧
+    -- `LossyFrom`: never overflows, loses only fractional bits
+    (lossyAdmissible S D → Layout.fromFixed S D x = .ok (Layout.convExact S D x) false)
+
+theorem holds : C04_statement := by
+  intro S D hS hD x hx
+  refine ⟨overflowingFromFixed_spec S D hS hD x hx, checkedFromFixed_spec S D hS hD x hx, wrappingFromFixed_spec S D hS hD x hx,
+    saturatingFromFixed_spec S D hS hD x hx, fromFixed_spec S D hS hD x hx, fun h => ?_, fun h => lossyFrom_spec S D hS hD h x hx⟩
+  obtain ⟨h1, h2, _⟩ := fromLossless_spec S D hS hD h x hx
+  exact ⟨h1, h2, fromLossless_value S D h.1 x⟩
+
+/-- integers: the twelve primitive types are the zero-fraction layouts, so both directions are instances -/
+theorem integers (L : Layout) (hL : L.valid) (si : Bool) (ni : Nat) (hni : ni = 8 ∨ ni = 16 ∨ ni = 32 ∨ ni = 64 ∨ ni = 128) :
+    (∀ x, inRange L x → Layout.convExact L (Layout.ofInt si ni) x = x / 2 ^ L.f ∧
+        Layout.checkedFromFixed L (Layout.ofInt si ni) x = chkI si ni (x / 2 ^ L.f)) ∧
+    (∀ k, inI si ni k → Layout.convExact (Layout.ofInt si ni) L k = k * 2 ^ L.f ∧
+        Layout.checkedFromFixed (Layout.ofInt si ni) L k = L.chk (k * 2 ^ L.f)) := by
+  refine ⟨fun x hx => ⟨convExact_toInt L si ni x, (toInt_spec L hL si ni hni x hx).2.1⟩, fun k hk => ⟨convExact_fromInt L si ni k, ?_⟩⟩
+  have := checkedFromFixed_spec (Layout.ofInt si ni) L (ofInt_valid si hni) hL k hk
+  rw [this, convExact_fromInt]
+
+/-- the type-level bound of `From`/`LossyFrom` is tight: one integer bit more in the source and some value does not fit -/
+theorem bound_tight (S D : Layout) (hS : S.valid) (hD : D.valid) (hs : S.signed = D.signed) (hf : S.f ≤ D.f)
+    (hb : S.n - S.f = D.n - D.f + 1) : ∃ x, inRange S x ∧ ¬ inRange D (Layout.convExact S D x) :=
+  from_bound_tight S D hS hD hs hf hb
+
+/-- non-vacuity: a widening signed→signed pair admitted by `From`, and a narrowing pair that overflows -/
+example : (⟨true, 8, 3⟩ : Layout).valid ∧ (⟨true, 32, 16⟩ : Layout).valid ∧ fromAdmissible ⟨true, 8, 3⟩ ⟨true, 32, 16⟩ ∧
+    inRange ⟨true, 8, 3⟩ (-128) ∧ ¬ inRange ⟨false, 8, 8⟩ (Layout.convExact ⟨true, 32, 16⟩ ⟨false, 8, 8⟩ (-1)) := by
+  refine ⟨by decide, by decide, ?_, by decide, by decide⟩
+  unfold fromAdmissible; decide
+
 end Sfx.C04
